@@ -78,7 +78,7 @@ inductive RcptV where
 
 /-- what DATA + the message + qmail-queue amount to (computed by `Data`/`Queue` in composed runs) -/
 inductive DataV where
-  | queueInitFailed                -- 451 sent by queue_init, EDONE, transaction kept
+  | queueInitFailed                -- 451 sent by queue_init, EDONE, transaction discarded
   | accepted                       -- 250, transaction freed, state back to after-HELO
   | refused (code : Nat) (rc : Rc) -- reply `code` (sent by smtp_data or by smtploop for rc), freed
   deriving Repr, DecidableEq
@@ -273,7 +273,7 @@ def refusedRes (code : Nat) (rc : Rc) (s : Sess) : FuncRes :=
 def smtpData (v : DataV) (s : Sess) : FuncRes :=
   if s.goodrcpt = 0 then { replies := [554], rc := .edone, s := s }
   else match v with
-    | .queueInitFailed => { replies := [451], rc := .edone, s := s }
+    | .queueInitFailed => { replies := [451], rc := .edone, s := freedata s }   -- the transaction has failed: discarded
     | .accepted =>
       { replies := [354, 250], rc := .ok, s := freedata s, stateOverride := some (afterHelo s),
         handoff := some (mkHandoff s) }
